@@ -187,6 +187,11 @@ func (e *Exec) sprintf(format StrV, args SliceV) StrV {
 		}
 		iv, _ := a.(IfaceV)
 		plain := spec == "%"+string(verb)
+		if verb == 'T' && plain && iv.t != nil {
+			// the dynamic type's name does not depend on the (symbolic) value
+			lit(types.TypeString(iv.t, func(p *types.Package) string { return p.Name() }))
+			continue
+		}
 		switch x := iv.v.(type) {
 		case *Term:
 			if x.S.K == SBV && plain && (verb == 'd' || verb == 'v') {
@@ -215,7 +220,7 @@ func (e *Exec) sprintf(format StrV, args SliceV) StrV {
 				}
 				continue
 			}
-			if x.opq == nil && symByteCount(x) <= 3 {
+			if x.opq == nil && symByteCount(x) <= 3 && strings.IndexByte("qsvxX", verb) >= 0 {
 				// other verbs (%q, padded %s): enumerate the few symbolic bytes and format natively
 				cs := e.concretizeStr(x)
 				lit(fmt.Sprintf(spec, cs.Concrete()))
